@@ -425,7 +425,7 @@ class Engine:
 
     def run_fn(self, fn, args, self_type=None):
         self.touched[fn.name] = fn.sha
-        self.self_types.append(self_type)
+        self.self_types.append(self_type if self_type is not None else (self.self_types[-1] if self.self_types else None))
         if self.depth > 60:
             raise Unsupported('call depth > 60 in ' + fn.name)
         self.depth += 1
